@@ -29,9 +29,10 @@ RULE = (
 )
 ASSUMPTIONS = ["member option values are JSON scalars / lists; the class reports keys() on the instance's own options"]
 FLOORS = {"instances_checked": (3000, 60000), "pairs_compared": (6000, 120000), "pairs_differing_only_in_relevant_dotted_key": (600, 12000),
-          "pairs_differing_only_in_irrelevant_key": (1500, 30000), "union_checks": (3000, 60000), "repr_checks": (3000, 60000), "pairs_same_options_entries_reordered": (1500, 30000)}
+          "pairs_differing_only_in_irrelevant_key": (1500, 30000), "union_checks": (3000, 60000), "repr_checks": (3000, 60000), "pairs_same_options_entries_reordered": (1500, 30000), "container_constants_checked": (1500, 30000)}
 SHARDS_QUICK = 4
 
+PRISTINE = {}  # id(constant object placed in a class body) -> deep copy taken at declaration
 FLAT = ["A", "B", "C"]
 DOTTED = ["S.X", "S.Y", "T.X"]
 
@@ -87,8 +88,9 @@ def make_class(r):
             target_ns[name] = d_
             members[name] = ("dynamic", ["D", k1, k2])
         else:
-            target_ns[name] = r.choice([1, "const", None, [1, 2]])
+            target_ns[name] = copy.deepcopy(r.choice([1, "const", None, [1, 2], ([0, 1], "closed"), {"k": [1]}, (1, ({"m": []},))]))
             members[name] = ("const", [])
+            PRISTINE[id(target_ns[name])] = copy.deepcopy(target_ns[name])
         target_ann[name] = object
     base_ns["__annotations__"] = base_ann
     ns["__annotations__"] = ann
@@ -163,18 +165,26 @@ def instance_case(ctx, cls, members, raw, o):
         if got[0] == "ok":
             ctx.violation("instantiation-should-fail", f"a required member option is absent but C(o) succeeded", W)
         return None
+    from ..hostile import scribble
+
+    throwaway = cls(copy.deepcopy(o))
+    for name, (kind, _ks) in members.items():
+        if kind == "const":  # (a dataset member's value may be the object its cache holds: not the instance's to edit)
+            scribble(getattr(throwaway, name))  # the owner of an instance may edit its plain members; later instances must not see it
     inst = cls(copy.deepcopy(o))
     for name, (kind, ks) in members.items():
         member = raw[name]
         attr = getattr(inst, name)
         if kind == "const":
-            exp = member
+            exp = PRISTINE.get(id(member), member)  # the declared constant as it was declared
         else:
             with labrea.cache.disabled():
                 exp = member.evaluate(copy.deepcopy(o))
         if canon(attr) != canon(exp):
             ctx.violation("member-not-its-evaluation", f"C(o).{name} = {attr!r} but member.evaluate(o) = {exp!r}", {**W, "member": name})
             return None
+        if kind == "const" and isinstance(attr, (list, dict, tuple)):
+            ctx.count("container_constants_checked")
     # union semantics of keys / explain / validate
     ctx.count("union_checks")
     ks = set(cls.keys(copy.deepcopy(o)))
